@@ -180,7 +180,7 @@ class ManagerMachine(Machine):
                      "faultFired": ["callback_raises", "callback_nan", "missing_file"]},
     }
     OPS = ("setup", "lte", "solve", "detonation", "hydro", "thermo", "config", "colldir",
-           "new_model", "arm")
+           "new_model", "arm", "solver_reuse")
     POSSIBLE_BIGRAMS = len(OPS) * (len(OPS) + 1)
 
     # ------------------------------------------------------------------ config
@@ -195,7 +195,7 @@ class ManagerMachine(Machine):
         kind = {"bag": "bag", "singlet": "singlet"}.get(theme, "yukawa")
         pts = fixtures.POINTS[kind]
         weights = {"setup": 1, "lte": 1, "solve": 3, "detonation": 1, "hydro": 1, "thermo": 1,
-                   "config": 1, "colldir": 0, "new_model": 1, "arm": 1}
+                   "config": 1, "colldir": 0, "new_model": 1, "arm": 1, "solver_reuse": 1}
         pool = [v for v in VARIANTS if v != "V0"]
         offEq = False
         good = list(pts["good"])
@@ -265,6 +265,7 @@ class ManagerMachine(Machine):
         self.lastOutcome = "-"
         self.lastQuestion: dict | None = None
         self.prevOp = "-"
+        self.kept: list = []
         self.solvesSinceConfig = 0
         self.faultSeen = False
 
@@ -381,6 +382,11 @@ class ManagerMachine(Machine):
                     "repoint": rng.random() < 0.3}
         if op == "new_model":
             return {"op": "new_model"}
+        if op == "solver_reuse":
+            offEq = bool(cfg["offEq"] and self.collKind in ("good", "good2")
+                         and rng.random() < 0.7)
+            return {"op": "solver_reuse", "settings": rng.choice(cfg["settings"]),
+                    "offEq": offEq}
         if op == "arm":
             return {"op": "arm", "kind": rng.choice(["raise", "raise", "nan"]),
                     "frac": round(rng.uniform(0.001, 0.999), 4)}
@@ -459,6 +465,8 @@ class ManagerMachine(Machine):
             ctl.disarm()
         rec: dict = {"outcome": outcome, "nCalls": ctl.calls, "fired": ctl.fired,
                      "trace": trace, "error": None if exc is None else str(exc)[:300]}
+        if history and outcome == "ok" and op in ("solve", "detonation"):
+            rec["value"] = value  # the very object handed to the caller
         if outcome == "ok":
             if op == "setup":
                 rec["obs"] = self._setupObservation(mgr)
@@ -749,12 +757,35 @@ class ManagerMachine(Machine):
         if handler is None:
             raise HarnessError(f"unknown op {op}")
         try:
-            return handler(step)
+            obs = handler(step)
+            self._checkKeptResults(op)
+            return obs
         finally:
             self.prevOp = op
             if op == "solve":
                 self.lastQuestion = {"op": "solve", "settings": step["settings"],
                                      "offEq": bool(step["offEq"])}
+
+    def _keep(self, op: str, rec: dict) -> None:
+        """remember the result OBJECT handed to the caller together with the digest
+        it had when it was returned"""
+        if "value" not in rec:
+            return
+        self.kept.append((op, rec.pop("value"), rec["digest"]))
+        self.kept = self.kept[-3:]
+
+    def _checkKeptResults(self, laterOp: str) -> None:
+        """a result that was returned earlier is the caller's: nothing a later
+        call does on the manager may change it"""
+        for op, value, was in self.kept:
+            obs = resultRecord(value) if op == "solve" else \
+                {"n": len(value), "results": [resultRecord(r) for r in value]}
+            self.ctx.checks["earlier_result_unchanged"] += 1
+            if digest(obs) != was:
+                raise Violation(
+                    "result-aliasing", f"{op}-result-changed-by-later-{laterOp}",
+                    f"a {op} result returned earlier on this manager changed after a later "
+                    f"{laterOp}: it shares state with the solver instead of owning its data")
 
     def _op_arm(self, step: dict) -> Any:
         self.armed = {"kind": step["kind"], "frac": float(step["frac"])}
@@ -887,6 +918,52 @@ class ManagerMachine(Machine):
         self.lastOutcome = "setup:" + rec["outcome"]
         return ["setup", rec["outcome"], rec["obs"]]
 
+    def _op_solver_reuse(self, step: dict) -> Any:
+        """The public setupWallSolver hands out a WallSolver; asking its EOM the same
+        question twice must give the identical answer, and that answer is the one
+        solveWall gives (the object is documented as reusable while the manager
+        is not modified)."""
+        if not self.valid or step["settings"] not in SETTINGS:
+            raise Skip()
+        if step["offEq"] and (self.kind != "yukawa" or self.collKind not in ("good", "good2")):
+            raise Skip()
+        solveStep = {"op": "solve", "settings": step["settings"], "offEq": bool(step["offEq"])}
+        ref = self._reference("solve", solveStep, self._args("solve", solveStep))
+        if ref["outcome"] != "ok":
+            raise Skip()
+        records = []
+        with warnings.catch_warnings():
+            warnings.simplefilter("ignore")
+            with np.errstate(all="ignore"):
+                solver = self.mgr.setupWallSolver(self._settings(step["settings"],
+                                                                 bool(step["offEq"]), True))
+                for _ in range(2):
+                    trace: list = []
+                    _TRACE["active"] = trace
+                    try:
+                        res = solver.eom.findWallVelocityDeflagrationHybrid(
+                            solver.initialWallThickness)
+                    finally:
+                        _TRACE["active"] = None
+                    records.append({"obs": resultRecord(res), "trace": trace, "value": res})
+        self.ctx.checks["solver_reuse"] += 1
+        digests = [digest(r["obs"]) for r in records]
+        for i, dg in enumerate(digests):
+            if dg != ref["digest"]:
+                a, b = records[i]["obs"], ref["obs"]
+                fields = [n for n in sorted(set(a) | set(b))
+                          if digest(a.get(n)) != digest(b.get(n))]
+                raise Violation(
+                    "history-independence", f"solver-reuse:call{i + 1}:{','.join(fields[:2])}",
+                    f"call {i + 1} on one WallSolver obtained from setupWallSolver differs from "
+                    f"solveWall on a fresh manager in {fields[:6]}")
+        rec = dict(records[1], outcome="ok")
+        self._checkResult("solve", solveStep, rec, ref.get("oracle"), "reused solver")
+        self.kept.append(("solve", records[0]["value"], digests[0]))
+        self.kept = self.kept[-3:]
+        self.ctx.probes["solver_reused_twice"] += 1
+        return ["solver_reuse", records[1]["obs"]]
+
     def _op_lte(self, step: dict) -> Any:
         return self._checked("lte", step)
 
@@ -950,6 +1027,7 @@ class ManagerMachine(Machine):
             self.ctx.probes["post_fault_strict_steps"] += 1
         if rec["outcome"] == "ok" and op in ("solve", "detonation"):
             self._checkResult(op, step, rec, ref.get("oracle"), "history")
+            self._keep(op, rec)
         self.lastOutcome = f"{op}:{rec['outcome']}:" + (
             rec["obs"].get("solutionType", "-") if isinstance(rec["obs"], dict) else "-")
         return [op, rec["outcome"], rec["obs"]]
